@@ -171,7 +171,8 @@ func compareRuns(rr realRun, ref refRun, names []string) (key, what string) {
 			return "thrown-value", fmt.Sprintf("thrown value arrived changed at the Go caller: real ErrorValue %s, model %s", got, canon.Render(ref.Err.Thrown))
 		}
 	case ref.Err.Class == refmal.Unbound:
-		if !strings.Contains(rr.Err.Error(), "'"+ref.Err.Sym+"'") {
+		// the name is compared only when this tree's wording names the symbol (the statement does not demand it)
+		if name, named := hx.UnboundName(rr.Err); named && name != ref.Err.Sym {
 			return "unbound-name", fmt.Sprintf("unbound symbol differs: real %q, model %s", rr.Err.Error(), ref.Err.Sym)
 		}
 	}
